@@ -1128,6 +1128,7 @@ class CTRFileIO(_CryptoFileBase):
         self._current_cipher = None
         return self._reader.seek(seek, whence)
 
+    @_raise_if_file_closed
     def truncate(self, size: 'Optional[int]' = None) -> int:
         return self._reader.truncate(size)
 
